@@ -176,7 +176,10 @@ Section Endpoint.
     | Some (ep0, cid, s) =>
         let '(s2, reply) := process_trigger P (enter ep0 s) (ep_now ep0) (E_acquire tsi tsr index) in
         let '(ep2, s3) := leave ep0 s2 in
-        send (ep2 <| table := replace (table ep2) cid s3 |>) reply
+        (* an IKE_SA created for an ACQUIRE that then started nothing (unknown policy index) is dropped again (fix f21) *)
+        if (match found with None => true | Some _ => false end) && acquire_drop_unstarted (state P s3)
+        then send (ep2 <| table := remove_cid (table ep2) cid |>) reply
+        else send (ep2 <| table := replace (table ep2) cid s3 |>) reply
     end.
 
   (** IkeSaController.process_expire *)
